@@ -71,3 +71,12 @@ chk("C08", "exploration", "property-based testing (Hypothesis): generated coil l
     "max_hold_duration must be followed by disable at their deadline whatever happens in between. Search, not proof.",
     "Virtual platform interface (hardware pulse limit 255 ms); max_pulse_power 0 and NaN not generated; serial platforms' encoders not covered.",
     "DESIGN.md §4 C08")
+chk("C02", "exploration", "property-based testing (Hypothesis): generated queue/relay/boolean handler programs vs. a log oracle with bounded liveness",
+    "Handler programs with waiting handlers (cleared after generated delays, inside the handler, by async coroutines or when "
+    "a nested queue event completes), several queue events in flight, relay and boolean events posted with and without "
+    "arguments, and modes (with/without use_wait_queue, with in-mode blocks) started from queue events are executed on the "
+    "real EventManager; the log must show handlers in priority order, no handler started while an earlier wait is "
+    "outstanding, exactly one callback after the last clear by a stated horizon, no open queue task, relay folds and "
+    "boolean short-circuit results. Search, not proof.",
+    "Liveness is bounded (2 s of virtual time after the program's own last clear); async handlers only on queue-only events.",
+    "DESIGN.md §4 C02, appendix A.1")
